@@ -22,7 +22,6 @@ Core Lean only (`List.Perm.eq_of_pairwise`, `List.isPerm_iff`): no Mathlib impor
 -/
 import WzVerif.Gen.PyFns_Accept
 import WzVerif.Lemmas.PyFns_Prelude
-import WzVerif.Lemmas.PyFnsEq_Conv
 import WzVerif.Props.C17T
 namespace Wz.PyFnsEq.Accept
 open Wz Wz.Accept
@@ -445,7 +444,7 @@ theorem to_header_join {σ : Type} (N : Neg σ Q) (hN : N.qle = Q.le) (qstr : Q 
     (self : List (List Char × Q)) :
     Gen.PyFns_Accept.to_header N Q.one qstr self = [','].intercalate (self.map (hdrItem qstr)) := by
   unfold Gen.PyFns_Accept.to_header
-  simp only [to_header_loop_eq N hN, List.nil_append, Conv.join_eq_intercalate]
+  simp only [to_header_loop_eq N hN, List.nil_append, Pre.join_eq_intercalate']
 
 /-- the model's partial `itemHeader` succeeds on every item where `qstr` agrees with `qRepr` -/
 theorem mapM_itemHeader (qstr : Q → List Char) (self : List (List Char × Q))
